@@ -245,6 +245,9 @@ class ProcessServlet(Servlet):
                     p.join()  # this will raise exception b/c worker __init__ failed
                 finally:
                     self._stop_started_workers(q_in)
+                # `join` does not raise if `__init__` left with `sys.exit(0)` or `sys.exit()`;
+                # the worker is gone all the same.
+                raise RuntimeError(f'worker <{sname}> exited during initialization')
             self._workers.append(p)
             logger.debug('   ... worker <%s> is ready', name)
 
@@ -366,6 +369,9 @@ class ThreadServlet(Servlet):
                     w.join()  # this will raise exception b/c worker __init__ failed
                 finally:
                     self._stop_started_workers(q_in)
+                # `join` does not raise if `__init__` left with `sys.exit(0)` or `sys.exit()`;
+                # the worker is gone all the same.
+                raise RuntimeError(f'worker <{sname}> exited during initialization')
             self._workers.append(w)
             logger.debug('   ... worker <%s> is ready', name)
 
